@@ -154,19 +154,25 @@ def Solver.env {n p m : Nat} (s : Solver K n p m) (perm : Vector (Fin (n + p + m
   { be := s.be, pk := s.pk, cs := cs, st := s.st, data := s.data, pre := s.pre,
     inner := execInner sqrtF s.be perm }
 
-/-- `setup_impl` after validation (typed arguments). `prevInfo` carries the info fields setup does not reset. -/
-def setupTyped {n p m : Nat} (hn : 0 < n) (be : Backend) (pk : PrecKind) (st : Settings K) (prevInfo : Info K)
+/-- the data `setup()` hands to the preconditioner: upper triangle of `P`, rows of `G` with an infinite `h` disabled,
+    bounds packed -/
+def setupRaw {n p m : Nat} (hn : 0 < n)
     (P : Mat K n n) (c : Vec K n) (AT : Mat K n p) (b : Vec K p) (GT : Mat K n m) (h : Option (Vec K m))
-    (xlb xub : Option (Vec K n)) : Solver K n p m :=
+    (xlb xub : Option (Vec K n)) : Data K n p m :=
   let (GT1, h1) : Mat K n m × Vec K m :=
     match h with
     | some h => disableInf cs GT h
     | none => (GT, Vec.const m poison)
   let box0 : BoxSide K n :=
     { cnt := 0, idx := Vector.replicate n ⟨0, hn⟩, sc := Vec.const n 1, val := Vec.const n poison }
-  let d0 : Data K n p m :=
-    { P := upperOfMat P, AT := AT, GT := GT1, c := c, b := b, h := h1,
-      lb := setupLb cs box0 xlb, ub := setupUb cs box0 xub }
+  { P := upperOfMat P, AT := AT, GT := GT1, c := c, b := b, h := h1,
+    lb := setupLb cs box0 xlb, ub := setupUb cs box0 xub }
+
+/-- `setup_impl` after validation (typed arguments). `prevInfo` carries the info fields setup does not reset. -/
+def setupTyped {n p m : Nat} (hn : 0 < n) (be : Backend) (pk : PrecKind) (st : Settings K) (prevInfo : Info K)
+    (P : Mat K n n) (c : Vec K n) (AT : Mat K n p) (b : Vec K p) (GT : Mat K n m) (h : Option (Vec K m))
+    (xlb xub : Option (Vec K n)) : Solver K n p m :=
+  let d0 := setupRaw cs poison hn P c AT b GT h xlb xub
   let zn : Vec K n := Vec.const n 0
   let w : Work K n p m :=
     { x := zn, y := Vec.const p 0, z := Vec.const m 0, z_lb := zn, z_ub := zn, s := Vec.const m 0, s_lb := zn, s_ub := zn,
@@ -175,10 +181,10 @@ def setupTyped {n p m : Nat} (hn : 0 < n) (be : Backend) (pk : PrecKind) (st : S
       rz_lb_nr := Vec.const n poison, rz_ub_nr := Vec.const n poison, d := freshStep poison n p m }
   let info := { prevInfo with rho := st.rhoInit, delta := st.deltaInit }
   let pre0 := Precond.init d0
-  let (d1, pre1) := Precond.scaleData pk sqrtF cs d0 pre0 false st.precScaleCost st.precIter.toNat
+  let sc := Precond.scaleData pk sqrtF cs d0 pre0 false st.precScaleCost st.precIter.toNat
   let one : Vec K n := Vec.const n 1
-  let kkt := KKT.init be d1 info.rho info.delta one one one one
-  { be, pk, st, data := d1, pre := pre1, kkt, w, info, kktInitState := true, setupDone := true,
+  let kkt := KKT.init be sc.1 info.rho info.delta one one one one
+  { be, pk, st, data := sc.1, pre := sc.2, kkt, w, info, kktInitState := true, setupDone := true,
     refineOn := st.refAlways,
     hDisabled := match h with | some h => infMask cs h | none => Vector.replicate m false }
 
@@ -196,92 +202,103 @@ def restoreBoxDual {n p m : Nat} (d : Data K n p m) (w : Work K n p m) : Work K 
            s_lb := restoreBox d.lb cs.posInf w.s_lb, s_ub := restoreBox d.ub cs.posInf w.s_ub,
            nu_lb := restoreBox d.lb 0 w.nu_lb, nu_ub := restoreBox d.ub 0 w.nu_ub }
 
+/-- the state `solve()` starts from: slacks and multipliers at one (they feed `update_scalings` when the first
+    factorisation is retried), counters reset, and the KKT scalings refreshed unless `setup()` has just built them -/
+def solveStart {n p m : Nat} (s : Solver K n p m) (perm : Vector (Fin (n + p + m)) (n + p + m)) :
+    Work K n p m × KKT K n p m × Info K :=
+  let st := s.st
+  let e := Solver.env cs sqrtF s perm
+  let d := s.data
+  let info0 : Info K :=
+    { s.info with status := .unsolved, iter := 0, regLimit := st.regLowerLimit, factorRetires := 0, noPrimalUpdate := 0,
+                  noDualUpdate := 0, mu := 0, primalStep := 0, dualStep := 0, rho := st.rhoInit, delta := st.deltaInit }
+  let w0 : Work K n p m :=
+    { s.w with s := Vec.const m 1, s_lb := d.lb.headUpd s.w.s_lb fun _ => 1, s_ub := d.ub.headUpd s.w.s_ub fun _ => 1,
+               z := Vec.const m 1, z_lb := d.lb.headUpd s.w.z_lb fun _ => 1, z_ub := d.ub.headUpd s.w.z_ub fun _ => 1 }
+  let kkt0 : KKT K n p m := if !s.kktInitState then kktScal e s.kkt w0 info0.rho info0.delta else s.kkt
+  (w0, kkt0, info0)
+
+/-- the initial point (one KKT solve, Mehrotra-style shift into the cone) and the loop state the main loop starts from -/
+def initialPoint {n p m : Nat} (s : Solver K n p m) (e : Env K n p m) (w0 : Work K n p m) (kkt1 : KKT K n p m)
+    (info1 : Info K) (refineOn : Bool) : LoopState K n p m :=
+  let st := s.st
+  let d := s.data
+  let info2 := { info1 with factorRetires := 0 }
+  -- initial point
+  let rhs : Step K n p m :=
+    { x := Vector.ofFn fun i => -d.c[i], y := d.b, z := d.h, z_lb := d.lb.val, z_ub := d.ub.val,
+      s := Vec.const m 0, s_lb := Vec.const n 0, s_ub := Vec.const n 0 }
+  let old : Step K n p m := ⟨w0.x, w0.y, w0.z, w0.z_lb, w0.z_ub, w0.s, w0.s_lb, w0.s_ub⟩
+  let ip := match KKT.solve e.be st.kkt d kkt1 rhs old refineOn with
+            | some o => o
+            | none => old
+  let wA : Work K n p m :=
+    { w0 with x := ip.x, y := ip.y, z := ip.z, z_lb := ip.z_lb, z_ub := ip.z_ub, s := ip.s, s_lb := ip.s_lb, s_ub := ip.s_ub,
+              r := { w0.r with x := rhs.x, s := rhs.s, s_lb := rhs.s_lb, s_ub := rhs.s_ub } }
+  let nl := d.lb.cnt
+  let nu := d.ub.cnt
+  let (wB, info3) : Work K n p m × Info K :=
+    if m + nl + nu ≠ 0 then
+      let sNorm := vmax (vmax (vmax 0 (Vec.infNorm wA.s)) (headInfNorm nl wA.s_lb)) (headInfNorm nu wA.s_ub)
+      let wA1 : Work K n p m :=
+        if sNorm ≤ cs.c1e_4 then
+          { wA with s := Vec.const m cs.c0_1, s_lb := d.lb.headUpd wA.s_lb fun _ => cs.c0_1,
+                    s_ub := d.ub.headUpd wA.s_ub fun _ => cs.c0_1,
+                    z := Vec.const m cs.c0_1, z_lb := d.lb.headUpd wA.z_lb fun _ => cs.c0_1,
+                    z_ub := d.ub.headUpd wA.z_ub fun _ => cs.c0_1 }
+        else wA
+      let dS0 : K := 0
+      let dS1 := if m ≠ 0 then vmax dS0 (-cs.c1_5 * minFin (wA1.s.getD 0 0) m fun i => wA1.s[i]) else dS0
+      let dS2 := if nl ≠ 0 then vmax dS1 (-cs.c1_5 * minHead (wA1.s_lb.getD 0 0) nl wA1.s_lb) else dS1
+      let dS := if nu ≠ 0 then vmax dS2 (-cs.c1_5 * minHead (wA1.s_ub.getD 0 0) nu wA1.s_ub) else dS2
+      let dZ0 : K := 0
+      let dZ1 := if m ≠ 0 then vmax dZ0 (-cs.c1_5 * minFin (wA1.z.getD 0 0) m fun i => wA1.z[i]) else dZ0
+      let dZ2 := if nl ≠ 0 then vmax dZ1 (-cs.c1_5 * minHead (wA1.z_lb.getD 0 0) nl wA1.z_lb) else dZ1
+      let dZ := if nu ≠ 0 then vmax dZ2 (-cs.c1_5 * minHead (wA1.z_ub.getD 0 0) nu wA1.z_ub) else dZ2
+      let tp0 := sumFin m fun i => (wA1.s[i] + dS) * (wA1.z[i] + dZ)
+      let tp1 := tp0 + sumFin n fun i => if i.val < nl then (wA1.s_lb[i] + dS) * (wA1.z_lb[i] + dZ) else 0
+      let tp := tp1 + sumFin n fun i => if i.val < nu then (wA1.s_ub[i] + dS) * (wA1.z_ub[i] + dZ) else 0
+      let cnt : K := ((m + nl + nu : Nat) : K)
+      let dSbar := dS + (cs.c0_5 * tp) / (Vec.sum wA1.z + sumHead nl wA1.z_lb + sumHead nu wA1.z_ub + cnt * dZ)
+      let dZbar := dZ + (cs.c0_5 * tp) / (Vec.sum wA1.s + sumHead nl wA1.s_lb + sumHead nu wA1.s_ub + cnt * dS)
+      let wA2 : Work K n p m :=
+        { wA1 with s := Vector.ofFn fun i => wA1.s[i] + dSbar,
+                   s_lb := d.lb.headUpd wA1.s_lb fun i => wA1.s_lb[i] + dSbar,
+                   s_ub := d.ub.headUpd wA1.s_ub fun i => wA1.s_ub[i] + dSbar,
+                   z := Vector.ofFn fun i => wA1.z[i] + dZbar,
+                   z_lb := d.lb.headUpd wA1.z_lb fun i => wA1.z_lb[i] + dZbar,
+                   z_ub := d.ub.headUpd wA1.z_ub fun i => wA1.z_ub[i] + dZbar }
+      (wA2, { info2 with mu := muOf d wA2 })
+    else (wA, info2)
+  let wC : Work K n p m :=
+    { wB with zeta := wB.x, lambda := wB.y, nu := wB.z,
+              nu_lb := d.lb.headUpd wB.nu_lb fun i => wB.z_lb[i],
+              nu_ub := d.ub.headUpd wB.nu_ub fun i => wB.z_ub[i] }
+  { c := { iter := 0, factorRetires := 0, refineOn := refineOn }, w := wC, info := info3, kkt := kkt1 }
+
 /-- `solve()` on a set-up solver -/
 def solveTyped {n p m : Nat} (s : Solver K n p m) (perm : Vector (Fin (n + p + m)) (n + p + m)) :
     Solver K n p m × Status :=
-  let st := s.st
-  if !st.verify then
+  if !s.st.verify then
     ({ s with info := { s.info with status := .invalidSettings } }, .invalidSettings)
   else
     let e := Solver.env cs sqrtF s perm
-    let d := s.data
-    let info0 : Info K :=
-      { s.info with status := .unsolved, iter := 0, regLimit := st.regLowerLimit, factorRetires := 0, noPrimalUpdate := 0,
-                    noDualUpdate := 0, mu := 0, primalStep := 0, dualStep := 0, rho := st.rhoInit, delta := st.deltaInit }
-    -- slacks and multipliers always start at one (they feed update_scalings when the first factorisation is retried)
-    let w0 : Work K n p m :=
-      { s.w with s := Vec.const m 1, s_lb := d.lb.headUpd s.w.s_lb fun _ => 1, s_ub := d.ub.headUpd s.w.s_ub fun _ => 1,
-                 z := Vec.const m 1, z_lb := d.lb.headUpd s.w.z_lb fun _ => 1, z_ub := d.ub.headUpd s.w.z_ub fun _ => 1 }
-    let kkt0 : KKT K n p m := if !s.kktInitState then kktScal e s.kkt w0 info0.rho info0.delta else s.kkt
-    let il := initLoopG e.st e.cs (realOps e) s.refineOn 0 (w0, kkt0) info0
-    let refineOn := il.1
-    let info1 := il.2.2.2.1
-    let kkt1 := il.2.2.1.2
-    let ok := il.2.2.2.2
-    if !ok then
-      let w' := restoreBoxDual cs d (unscaleResults s.pk s.pre w0)
-      ({ s with w := w', info := info1, kkt := kkt1, kktInitState := false, refineOn := refineOn }, .numerics)
+    let start := solveStart cs sqrtF s perm
+    let il := initLoopG e.st e.cs (realOps e) s.refineOn 0 (start.1, start.2.1) start.2.2
+    if !il.2.2.2.2 then
+      let w' := restoreBoxDual cs s.data (unscaleResults s.pk s.pre start.1)
+      ({ s with w := w', info := il.2.2.2.1, kkt := il.2.2.1.2, kktInitState := false, refineOn := il.1 }, .numerics)
     else
-      let info2 := { info1 with factorRetires := 0 }
-      -- initial point
-      let rhs : Step K n p m :=
-        { x := Vector.ofFn fun i => -d.c[i], y := d.b, z := d.h, z_lb := d.lb.val, z_ub := d.ub.val,
-          s := Vec.const m 0, s_lb := Vec.const n 0, s_ub := Vec.const n 0 }
-      let old : Step K n p m := ⟨w0.x, w0.y, w0.z, w0.z_lb, w0.z_ub, w0.s, w0.s_lb, w0.s_ub⟩
-      let ip := match KKT.solve e.be st.kkt d kkt1 rhs old refineOn with
-                | some o => o
-                | none => old
-      let wA : Work K n p m :=
-        { w0 with x := ip.x, y := ip.y, z := ip.z, z_lb := ip.z_lb, z_ub := ip.z_ub, s := ip.s, s_lb := ip.s_lb, s_ub := ip.s_ub,
-                  r := { w0.r with x := rhs.x, s := rhs.s, s_lb := rhs.s_lb, s_ub := rhs.s_ub } }
-      let nl := d.lb.cnt
-      let nu := d.ub.cnt
-      let (wB, info3) : Work K n p m × Info K :=
-        if m + nl + nu ≠ 0 then
-          let sNorm := vmax (vmax (vmax 0 (Vec.infNorm wA.s)) (headInfNorm nl wA.s_lb)) (headInfNorm nu wA.s_ub)
-          let wA1 : Work K n p m :=
-            if sNorm ≤ cs.c1e_4 then
-              { wA with s := Vec.const m cs.c0_1, s_lb := d.lb.headUpd wA.s_lb fun _ => cs.c0_1,
-                        s_ub := d.ub.headUpd wA.s_ub fun _ => cs.c0_1,
-                        z := Vec.const m cs.c0_1, z_lb := d.lb.headUpd wA.z_lb fun _ => cs.c0_1,
-                        z_ub := d.ub.headUpd wA.z_ub fun _ => cs.c0_1 }
-            else wA
-          let dS0 : K := 0
-          let dS1 := if m ≠ 0 then vmax dS0 (-cs.c1_5 * minFin (wA1.s.getD 0 0) m fun i => wA1.s[i]) else dS0
-          let dS2 := if nl ≠ 0 then vmax dS1 (-cs.c1_5 * minHead (wA1.s_lb.getD 0 0) nl wA1.s_lb) else dS1
-          let dS := if nu ≠ 0 then vmax dS2 (-cs.c1_5 * minHead (wA1.s_ub.getD 0 0) nu wA1.s_ub) else dS2
-          let dZ0 : K := 0
-          let dZ1 := if m ≠ 0 then vmax dZ0 (-cs.c1_5 * minFin (wA1.z.getD 0 0) m fun i => wA1.z[i]) else dZ0
-          let dZ2 := if nl ≠ 0 then vmax dZ1 (-cs.c1_5 * minHead (wA1.z_lb.getD 0 0) nl wA1.z_lb) else dZ1
-          let dZ := if nu ≠ 0 then vmax dZ2 (-cs.c1_5 * minHead (wA1.z_ub.getD 0 0) nu wA1.z_ub) else dZ2
-          let tp0 := sumFin m fun i => (wA1.s[i] + dS) * (wA1.z[i] + dZ)
-          let tp1 := tp0 + sumFin n fun i => if i.val < nl then (wA1.s_lb[i] + dS) * (wA1.z_lb[i] + dZ) else 0
-          let tp := tp1 + sumFin n fun i => if i.val < nu then (wA1.s_ub[i] + dS) * (wA1.z_ub[i] + dZ) else 0
-          let cnt : K := ((m + nl + nu : Nat) : K)
-          let dSbar := dS + (cs.c0_5 * tp) / (Vec.sum wA1.z + sumHead nl wA1.z_lb + sumHead nu wA1.z_ub + cnt * dZ)
-          let dZbar := dZ + (cs.c0_5 * tp) / (Vec.sum wA1.s + sumHead nl wA1.s_lb + sumHead nu wA1.s_ub + cnt * dS)
-          let wA2 : Work K n p m :=
-            { wA1 with s := Vector.ofFn fun i => wA1.s[i] + dSbar,
-                       s_lb := d.lb.headUpd wA1.s_lb fun i => wA1.s_lb[i] + dSbar,
-                       s_ub := d.ub.headUpd wA1.s_ub fun i => wA1.s_ub[i] + dSbar,
-                       z := Vector.ofFn fun i => wA1.z[i] + dZbar,
-                       z_lb := d.lb.headUpd wA1.z_lb fun i => wA1.z_lb[i] + dZbar,
-                       z_ub := d.ub.headUpd wA1.z_ub fun i => wA1.z_ub[i] + dZbar }
-          (wA2, { info2 with mu := muOf d wA2 })
-        else (wA, info2)
-      let wC : Work K n p m :=
-        { wB with zeta := wB.x, lambda := wB.y, nu := wB.z,
-                  nu_lb := d.lb.headUpd wB.nu_lb fun i => wB.z_lb[i],
-                  nu_ub := d.ub.headUpd wB.nu_ub fun i => wB.z_ub[i] }
-      let ls0 : LoopState K n p m := { c := { iter := 0, factorRetires := 0, refineOn := refineOn }, w := wC, info := info3, kkt := kkt1 }
-      let (ls, status) := mainLoop e ls0
-      let w' := restoreBoxDual cs d (unscaleResults s.pk s.pre ls.w)
-      ({ s with w := w', info := ls.info, kkt := ls.kkt, kktInitState := false, refineOn := ls.c.refineOn }, status)
+      let ls0 := initialPoint cs s e start.1 il.2.2.1.2 il.2.2.2.1 il.1
+      let r := mainLoop e ls0
+      let w' := restoreBoxDual cs s.data (unscaleResults s.pk s.pre r.1.w)
+      ({ s with w := w', info := r.1.info, kkt := r.1.kkt, kktInitState := false, refineOn := r.1.c.refineOn }, r.2)
 
-/-- `update()` after validation -/
-def updateTyped {n p m : Nat} (sparse : Bool) (maskP : Array Bool) (s : Solver K n p m)
+/-- the data `update()` hands to the preconditioner: the stored data unscaled, with the passed blocks replaced,
+    rows of `G` disabled by an infinite `h` zeroed, bounds re-packed -/
+def updateRaw {n p m : Nat} (sparse : Bool) (maskP : Array Bool) (s : Solver K n p m)
     (P : Option (Mat K n n)) (c : Option (Vec K n)) (A : Option (Mat K p n)) (b : Option (Vec K p))
-    (G : Option (Mat K m n)) (h : Option (Vec K m)) (xlb xub : Option (Vec K n)) (reuse : Bool) : Solver K n p m :=
+    (G : Option (Mat K m n)) (h : Option (Vec K m)) (xlb xub : Option (Vec K n)) : Data K n p m :=
   let d0 := Precond.unscaleData s.pk s.data s.pre
   let d1 : Data K n p m :=
     match P with
@@ -300,7 +317,13 @@ def updateTyped {n p m : Nat} (sparse : Bool) (maskP : Array Bool) (s : Solver K
             | some h => let (GT1, h1) := disableInf cs d5.GT h; { d5 with GT := GT1, h := h1 }
             | none => d5
   let d7 := match xlb with | some _ => { d6 with lb := setupLb cs d6.lb xlb } | none => d6
-  let d8 := match xub with | some _ => { d7 with ub := setupUb cs d7.ub xub } | none => d7
+  match xub with | some _ => { d7 with ub := setupUb cs d7.ub xub } | none => d7
+
+/-- `update()` after validation -/
+def updateTyped {n p m : Nat} (sparse : Bool) (maskP : Array Bool) (s : Solver K n p m)
+    (P : Option (Mat K n n)) (c : Option (Vec K n)) (A : Option (Mat K p n)) (b : Option (Vec K p))
+    (G : Option (Mat K m n)) (h : Option (Vec K m)) (xlb xub : Option (Vec K n)) (reuse : Bool) : Solver K n p m :=
+  let d8 := updateRaw cs sparse maskP s P c A b G h xlb xub
   let sc := Precond.scaleData s.pk sqrtF cs d8 s.pre reuse s.st.precScaleCost s.st.precIter.toNat
   -- fix 4th of its kind in solver.hpp: a new scaling changes every block; the next solve rebuilds the scalings part
   let all := !reuse
